@@ -124,14 +124,18 @@ def absorbing_site(e):
     return None
 
 
-def render(diff_tree, color):
+def render(diff_tree, color, yaml=False):
     from graphtage.printer import Printer
     from graphtage.json import JSONFormatter
+    from graphtage.yaml import YAMLFormatter
     from graphtage.xml import XMLFormatter, XMLElement
     cli.pin_colorama()
     buf = io.StringIO()
     p = Printer(buf, ansi_color=color, quiet=True)
-    fmt = XMLFormatter.DEFAULT_INSTANCE if isinstance(diff_tree, XMLElement) else JSONFormatter.DEFAULT_INSTANCE
+    if isinstance(diff_tree, XMLElement):
+        fmt = XMLFormatter.DEFAULT_INSTANCE
+    else:
+        fmt = YAMLFormatter.DEFAULT_INSTANCE if yaml else JSONFormatter.DEFAULT_INSTANCE
     fmt.print(p, diff_tree)
     return buf.getvalue()
 
@@ -152,12 +156,13 @@ def evaluate(case, with_cli=True):
                 kindk = 'zero_cost_for_unequal' if not eq else 'positive_cost_for_equal'
                 return {'key': f'{kindk} @ {site} : {tag}',
                         'detail': f'A={case["a"]!r} B={case["b"]!r} cost={cost} any_nonzero_edit={had} equal={eq}'}, None
-            for color in ((False, True) if kind != 'csv' else ()):
-                text = render(d, color)
+            for color, yaml in (((False, False), (True, False), (False, True)) if kind == 'json' else
+                                ((False, False), (True, False)) if kind != 'csv' else ()):
+                text = render(d, color, yaml)
                 marks = cli.has_marks(text, color)
                 if marks == eq:
                     return {'key': f'{"marks_for_equal" if eq else "no_marks_for_unequal"} @ {type(d.edit).__name__} '
-                                   f'color={color} : {tag}',
+                                   f'color={color}{" as YAML" if yaml else ""} : {tag}',
                             'detail': f'A={case["a"]!r} B={case["b"]!r} rendered {text!r}'}, None
             rc = None
             if with_cli and kind in ('json', 'xml', 'csv'):
